@@ -16,7 +16,8 @@ from vcommon import VERIF
 
 PROPS = ["Bee2V/C10/PropsStructs.lean", "Bee2V/C10/Props.lean"]
 OPTIONAL_PROPS = ["Bee2V/C10/PropsModes.lean", "Bee2V/C10/PropsAead.lean", "Bee2V/C10/PropsAbsorb.lean",
-                  "Bee2V/C10/PropsGen.lean", "Bee2V/C10/PropsBrng.lean"]
+                  "Bee2V/C10/PropsGen.lean", "Bee2V/C10/PropsBrng.lean", "Bee2V/C10/PropsRefined.lean",
+                  "Bee2V/C10/PropsStd.lean"]
 
 
 def props_list():
@@ -120,6 +121,20 @@ def with_relocs(ops, rng, mode):
             out += [o, "m"]
         return out
     return ops[:mode] + ["m"] + ops[mode:]
+
+
+def with_dumps(ops, rng):
+    """krp / bhash / totp: `D` = dump of ALL members of the C state struct (scratch members included), compared with
+    the refined Lean model; after every call, or only at the end, or not at all"""
+    mode = rng.choice(("all", "end", "end", "none"))
+    if mode == "none":
+        return ops
+    if mode == "end":
+        return ops + ["D"]
+    out = ["D"]
+    for o in ops:
+        out += [o, "D"]
+    return out
 
 
 KEYLENS = (16, 24, 32)
@@ -259,7 +274,7 @@ def gen_absorb(ctx, sessions):
                 else:
                     vs = [ops + ["g:%d" % tagn], with_relocs(ops + ["g:%d" % tagn], rng, "all")]
                 for v in vs:
-                    sessions.append(Sess(b, start, v))
+                    sessions.append(Sess(b, start, with_dumps(v, rng) if b == "bhash" else v))
 
 
 def gen_aead(ctx, sessions):
@@ -357,7 +372,7 @@ def gen_krp(ctx, sessions):
             ops.append("g:%d:%s" % (n, hx(rb(rng, 16))))
         ops += [ops[0]]     # the first request again: must give the first answer again
         for v in variants(ctx, ops, [], rng, every=True):
-            sessions.append(Sess("krp", [hx(rb(rng, kl)), hx(rb(rng, 12))], v))
+            sessions.append(Sess("krp", [hx(rb(rng, kl)), hx(rb(rng, 12))], with_dumps(v, rng)))
 
 
 def prg_rate(l, d, keyed):
@@ -494,7 +509,7 @@ def gen_botp(ctx, sessions):
             ops.append(rng.choice(["r:%d" % t, "V:%d" % t, "v:%d:%s" % (t, rand_otp(rng, dg))]))
         ops += ["r:%d" % 12345]
         for v in (ops, with_relocs(ops, rng, "all"), with_relocs(ops, rng, rng.randrange(len(ops) + 1))):
-            sessions.append(Sess("totp", [str(dg), hx(key)], v))
+            sessions.append(Sess("totp", [str(dg), hx(key)], with_dumps(v, rng)))
     for _ in range(300 if thorough else 60):
         su = rng.choice(SUITES)
         ctr, pl, sl, qm, ts = suite_info(su)
@@ -586,7 +601,11 @@ def is_getlike(s, op, outs):
 
 def strip_gets(s, pairs):
     """(stripped session, indices of the kept ops) — the last op is always kept (it is the observation)"""
-    keep = [i for i, (o, t) in enumerate(pairs) if o != "m" and (i == len(pairs) - 1 or not is_getlike(s, o, t))]
+    # `D` (dump of the scratch members) is dropped as well: Get-type calls legitimately change the scratch members
+    dump = ("D",) if s.b in ("krp", "bhash", "totp") else ()      # in `prg` the token D is DecrStart
+    calls_ = [i for i, (o, t) in enumerate(pairs) if o != "m" and o not in dump]
+    last = calls_[-1] if calls_ else -1
+    keep = [i for i in calls_ if i == last or not is_getlike(s, pairs[i][0], pairs[i][1])]
     keep_m = [i for i, (o, t) in enumerate(pairs) if o == "m" or i in keep]
     return Sess(s.b, s.start, [pairs[i][0] for i in keep_m]), keep_m
 
@@ -672,7 +691,7 @@ def hl_requests(s, pairs):
         # decryption after verification: concat of d outputs == keystream applied to the concat -> via ctr/e
     elif b == "krp":
         for o, t in pairs:
-            if o == "m":
+            if o in ("m", "D"):
                 continue
             _, n, h = o.split(":")
             line = "hl krp %s %s %s" % (n, " ".join(st), h)
